@@ -12,12 +12,15 @@
      (range of the target)                         range_checked, range_upper_dead
      (one-byte tag assumption of field_size)       tag_one_byte        — over the regenerated field numbers
      (Go's SizeVarint formula = protobuf varint)   varint_len_correct
+     "A request marked for expansion is padded ... or the suite is rejected", for a whole suite
+      file, whatever its other directives            marked_is_expanded_or_rejected, load_only_marking
+     (the limit is per message of a stream)          accepts_sharp (2nd half), stream_fails_at, stream_verdict_total
      "the reference server accepts a message of exactly the limit and rejects one byte more ...
       and the reference client does the same"      accepts_sharp / expanded_verdict are statements about the
                                                    SPECIFICATION `accepts`; the real peers (connect-go's
                                                    WithReadMaxBytes) are compared with it by live RPCs on every
                                                    check (kind c19.sharp).  Nothing is proved about connect-go. *)
-From V Require Import C19_Spec C19_Proofs.
+From V Require Import C19_Spec C19_Proofs C19_StreamProofs.
 Open Scope Z_scope.
 
 (* a successful expansion has exactly the wanted size *)
@@ -97,10 +100,28 @@ Theorem varint_len_correct : forall n, 0 <= n <= go_int_max -> varint_len_spec n
 Proof. exact varint_len_correct_proof. Qed.
 Print Assumptions varint_len_correct.
 
-(* the specification of the limit is sharp, and it links directive and verdict *)
-Theorem accepts_sharp : forall limit, sharp_at limit (accepts limit).
-Proof. exact accepts_sharp_proof. Qed.
+(* the specification of the limit is sharp, and it is sharp PER MESSAGE of a stream: a stream of
+   requests (client stream, bidi) or of responses (server stream, bidi) is accepted iff each
+   message in it is within the limit - independent of the number of messages and of what their
+   sizes add up to, i.e. of the length of the body that carries them (declared or not).  A limit
+   on the body (Content-Length > limit + envelope prefix => resource_exhausted) is NOT this
+   specification: see ex_body_length_is_not_the_measure below. *)
+Theorem accepts_sharp : forall limit,
+  sharp_at limit (accepts limit) /\ stream_sharp_at limit (stream_accepts limit).
+Proof. exact accepts_sharp_full_proof. Qed.
 Print Assumptions accepts_sharp.
+
+(* a rejected stream fails at the first message above the limit (every earlier one was taken) *)
+Theorem stream_fails_at : forall limit sizes i,
+  first_rejected limit sizes = Some i <-> fails_at limit sizes i.
+Proof. exact stream_fails_at_proof. Qed.
+Print Assumptions stream_fails_at.
+
+Theorem stream_verdict_total : forall limit sizes,
+  (stream_accepts limit sizes = true /\ first_rejected limit sizes = None) \/
+  (stream_accepts limit sizes = false /\ exists i, first_rejected limit sizes = Some i /\ (i < length sizes)%nat).
+Proof. exact stream_verdict_total_proof. Qed.
+Print Assumptions stream_verdict_total.
 
 Theorem expanded_verdict : forall limit dirs ms ms',
   Forall wf_msg ms -> expand_case limit dirs ms = COk ms' ->
@@ -147,3 +168,58 @@ Print Assumptions wiring_defined.
 Example ex_wiring : wiring_all 204800 [-1; 0; 1] =
   Some [L [I 204800; I 204799; I 1]; L [I 204800; I 204800; I 1]; L [I 204800; I 204801; I 0]].
 Proof. vm_compute. reflexivity. Qed.
+
+(* ---- streams: non-vacuity ---- *)
+Example ex_stream_at_limit : stream_accepts 204800 [204800; 204800; 204800] = true /\
+  first_rejected 204800 [204800; 204801; 204800] = Some 1%nat /\
+  first_rejected 204800 [204800; 204800; 204801] = Some 2%nat.
+Proof. vm_compute. auto. Qed.
+(* three messages of exactly the limit: every message is acceptable although the body that carries
+   them (5 bytes of envelope prefix each) is three times the limit *)
+Example ex_body_length_is_not_the_measure :
+  let sizes := [204800; 204800; 204800] in
+  stream_accepts 204800 sizes = true /\ 204800 + 5 < fold_right (fun s a => 5 + s + a) 0 sizes.
+Proof. vm_compute. auto. Qed.
+
+(* ---- the loader (kind c19.load, and c19.wiring end to end) ---- *)
+(* For EVERY suite - relies_on_message_receive_limit set or not, any mode, any stream types, any
+   codecs - a load that succeeds has expanded every test case exactly as its directives say, and
+   a load that fails names a test case with directives and a justified reason.  There is no third
+   outcome (a marked request left un-padded in a loaded suite). *)
+Theorem marked_is_expanded_or_rejected : forall limit s,
+  wf_suite s ->
+  match load_suite limit s with
+  | LOk out => suite_loaded limit s out
+  | LErr i e => load_rejection_justified limit s i e
+  | LCrash => False
+  end.
+Proof. exact marked_is_expanded_or_rejected_proof. Qed.
+Print Assumptions marked_is_expanded_or_rejected.
+
+(* the decision is a function of the codecs and of (directives, messages) of the cases alone *)
+Theorem load_only_marking : forall limit s s',
+  same_marking s s' -> load_suite limit s = load_suite limit s'.
+Proof. exact load_only_marking_proof. Qed.
+Print Assumptions load_only_marking.
+
+Example ex_load_unflagged :
+  load_suite 204800 {| s_flag := false; s_mode := 2; s_codecs := [1];
+     s_cases := [ {| t_stream := 2; t_dirs := [Some 0; None; Some 1]; t_msgs := [Padded 17 0; Padded 0 12; Padded 0 12] |};
+                  {| t_stream := 1; t_dirs := []; t_msgs := [Padded 3 4] |} ] |}
+  = LOk [[Padded 17 204779; Padded 0 12; Padded 0 204797]; [Padded 3 4]].
+Proof. vm_compute. reflexivity. Qed.
+Example ex_load_unreachable_unflagged :
+  load_suite 204800 {| s_flag := false; s_mode := 2; s_codecs := [1];
+     s_cases := [ {| t_stream := 1; t_dirs := []; t_msgs := [Padded 3 4] |};
+                  {| t_stream := 1; t_dirs := [Some (-204799)]; t_msgs := [Padded 0 0] |} ] |}
+  = LErr 1 (LExpand EUnreachable).
+Proof. vm_compute. reflexivity. Qed.
+Example ex_load_codec :
+  load_suite 204800 {| s_flag := true; s_mode := 1; s_codecs := [1; 2];
+     s_cases := [ {| t_stream := 1; t_dirs := []; t_msgs := [Padded 3 4] |};
+                  {| t_stream := 1; t_dirs := [None]; t_msgs := [Padded 0 0] |} ] |}
+  = LErr 1 LCodec.
+Proof. vm_compute. reflexivity. Qed.
+Example ex_wf_suite : wf_suite {| s_flag := false; s_mode := 0; s_codecs := [];
+     s_cases := [ {| t_stream := 1; t_dirs := [Some 0]; t_msgs := [Padded 3 4; Opaque 2] |} ] |}.
+Proof. repeat constructor; cbn; unfold go_int_max; try discriminate. Qed.
